@@ -124,10 +124,11 @@ def gen_cases(tier: str, seed: int) -> list[dict]:
         cases.append({"payload": "small", "nkeys": 2, "workers": 0, "fp": {"kind": "concurrent", "func": "save", "line": ln, "hit": 1}})
     for ln in lines_lr[-3:]:
         cases.append({"payload": "small", "nkeys": 2, "workers": 0, "fp": {"kind": "concurrent", "func": "load_or_run", "line": ln, "hit": 2}})
-    for kt in ("float_fine_steps", "float_large", "numpy_float", "int", "tuple", "negative_and_small"):
+    for kt in ("float_fine_steps", "float_large", "numpy_float", "int", "tuple", "negative_and_small", "equal_but_distinct"):
+        nk = 6 if kt == "equal_but_distinct" else 4
         for w in (0, 2):
-            cases.append({"payload": f"keys:{kt}", "nkeys": 4, "workers": w, "fp": {"kind": "none"}})
-        cases.append({"payload": f"keys:{kt}", "nkeys": 4, "workers": 0, "fp": {"kind": "subset", "subset": [1, 3]}})
+            cases.append({"payload": f"keys:{kt}", "nkeys": nk, "workers": w, "fp": {"kind": "none"}})
+        cases.append({"payload": f"keys:{kt}", "nkeys": nk, "workers": 0, "fp": {"kind": "subset", "subset": [1, 3]}})
     for i, c in enumerate(cases):
         c["seed"] = f"{seed}:C19:{i}"
     return cases
@@ -170,6 +171,8 @@ def run_workload(payload: str, nkeys: int, cache_dir: str | None, workers: int, 
             "int": [10 + i for i in idx],
             "tuple": [(i, 0.5 + i * 1e-7) for i in idx],
             "negative_and_small": [(-1.0) ** i * 1e-9 * (i + 1) for i in idx],
+            # distinct keys (each has its own input and its own file name) that compare equal to one another
+            "equal_but_distinct": [[0, False, 1, True, 1.0, 0.0][i % 6] for i in idx],
         }
         keys = kinds[payload.split(":", 1)[1]]
         res = parallelise(cachefn.small, [(k, i + 2) for k, i in zip(keys, idx)], cache=cache, parallel=workers > 0,
